@@ -1303,6 +1303,11 @@ int32_t tls13ParsePreSharedKey(ssl_t *ssl,
             psTraceErrr("Server selected_identity out of range\n");
             goto out_illegal_parameter;
         }
+        /* The Early Secret at hand is the one of the PSK whose binder was
+           computed last. The key schedule has to continue from the Early
+           Secret of the PSK the server selected: have it generated again
+           (tls13GenerateEarlySecret keeps what it has once a PSK is in use). */
+        ssl->sec.tls13KsState.generateEarlySecretDone = 0;
     }
 
     ssl->extFlags.got_pre_shared_key = 1;
